@@ -190,6 +190,7 @@ type pathCtx struct {
 	curLabel                                             string
 	mapOrder                                             int
 	approx                                               int64
+	ufCache                                              map[string]*Term
 	top                                                  *frame
 	bsets                                                map[string]*byteSet
 	inexact                                              map[string]bool
@@ -780,6 +781,9 @@ func (px *pathCtx) violation(kind, tag, msg string, fr *frame, m Model) {
 		v.Where, v.Stack = stackOf(fr)
 	} else if px.panicStack != nil {
 		v.Where, v.Stack = px.panicWhere, px.panicStack
+	}
+	if px.approx > 0 {
+		px.note("approx", "path took an over-approximated string comparison")
 	}
 	if len(px.notes) > 0 {
 		v.Notes = map[string]string{}
